@@ -16,7 +16,8 @@ RULE = ('Schematic(obj, placeAndRoute=True) built in a child process (20 s alarm
         'with their optional/multiple ports connected: Add ci/co, Abs inverted, Reg enable/reset, ShiftRight arithmetic, DelayLine, '
         'Comparator, Swap, counters; several outputs of one block converging on one sink with another reader created later and a '
         'register loop behind; children instantiated in data-flow, reversed or random order; chains, '
-        'fan-out, register feedback incl. q->own d, edges spanning several columns, one wire on two pins), (d) size class: chains of '
+        'fan-out, register feedback incl. q->own d, edges spanning several columns, one wire on two pins), observer children without outputs (py4hw.Scope on wires, py4hw.Waveform on wires or on '
+        'PORTS of the drawn block) created first / in the middle / last, (d) size class: chains of '
         '400/800 (thorough up to 900) instances created output-first, input-first or in random order, drawn under the interpreter '
         'default recursion limit; the object graph '
         '(objs, nets, symbol_matrix) is judged offline. non-trivial = the drawing needed a pass-through or feedback marker, or has '
